@@ -315,6 +315,47 @@ func runC19(r *Report) {
 	}
 	if lm := r.need("R-C19-4", dpPkg, "DomainProxyModule.lookupMapping"); lm != nil {
 		repoCalls := Calls(lm, false, "DomainProxyModule.lookupFromRepositoryWithRepo")
+		// the error code lookupMapping reads as "not in this source, try the next one" is
+		// never produced for a name the repository does hold (inactive / expired): such a
+		// name must be rejected, not looked up again in the legacy sources.
+		var next []string
+		for _, rc := range repoCalls {
+			for _, ic := range Calls(lm, false, "errors:IsCode") {
+				if !valueFromCall(Arg(ic, 0), rc) {
+					continue
+				}
+				if k, ok := stripValue(Arg(ic, 1)).(*ssa.Const); ok {
+					next = append(next, constString(k))
+				}
+			}
+		}
+		if lr := r.P.Fn(dpPkg, "DomainProxyModule.lookupFromRepositoryWithRepo"); lr != nil && len(repoCalls) > 0 {
+			r.Ob("R-C19-4", CallPos(repoCalls[0]), len(next) > 0, "lookupMapping falls through to the legacy sources only on a named error code of the repository lookup", "lookupMapping", "fallthrough-code")
+			lk := Calls(lr, false, "LookupByDomain")
+			nTerm := 0
+			for _, mk := range Calls(lr, false, "errors:New", "errors:Newf", "errors:Wrap", "errors:Wrapf") {
+				if len(lk) != 1 || !ErrOK(mk.Block(), lk[0]) {
+					continue
+				}
+				code := ""
+				for i := 0; i < 2; i++ {
+					if k, ok := stripValue(Arg(mk, i)).(*ssa.Const); ok && k.Value != nil && strings.Contains(k.Type().String(), "ErrorCode") {
+						code = constString(k)
+					}
+				}
+				nTerm++
+				bad := false
+				for _, n := range next {
+					if n == code {
+						bad = true
+					}
+				}
+				r.Ob("R-C19-4", CallPos(mk), !bad, "a name the repository holds but may not route (inactive, expired) is refused with a terminal code, not with "+code+" which lookupMapping reads as 'try the legacy sources'", "lookupFromRepositoryWithRepo", "held-name-terminal:"+code)
+			}
+			if nTerm < 1 {
+				r.Fail("R-C19-4", lr.Pos(), "no refusal of a held-but-unroutable name found after LookupByDomain succeeded (2 confirmed by hand)", "lookupFromRepositoryWithRepo", "held-name-terminal:floor")
+			}
+		}
 		legacy := Calls(lm, false, "DomainRegistry.LookupByHost", "GetPortMappingByDomain")
 		for _, lg := range legacy {
 			first := len(repoCalls) == 1 && !CanReach(lg.Block(), repoCalls[0].Block())
@@ -371,6 +412,41 @@ func runC19(r *Report) {
 	guardedBy(r, "R-C19-5", "internal/httpservice", "DomainRegistry", "mappings", "mu", map[string]string{"NewDomainRegistry": "constructor"})
 	checkThenActSameSection(r, "R-C19-5", "internal/httpservice", "DomainRegistry", "mappings", "mu")
 	// Register decides on a lookup: that lookup must be under the write lock
+	// Rebuild replaces the index: the map is re-created before the first insert, so a name whose
+	// mapping was deleted does not survive a rebuild from storage.
+	if rb := r.need("R-C19-5", "internal/httpservice", "DomainRegistry.Rebuild"); rb != nil {
+		var fresh []*ssa.Store
+		Instrs(rb, func(in ssa.Instruction) {
+			if st, ok := in.(*ssa.Store); ok {
+				if _, f, _, ok := FieldOf(st.Addr); ok && f == "mappings" {
+					if _, mk := stripValue(st.Val).(*ssa.MakeMap); mk {
+						fresh = append(fresh, st)
+					}
+				}
+			}
+		})
+		nUp := 0
+		Instrs(rb, func(in ssa.Instruction) {
+			mu, ok := in.(*ssa.MapUpdate)
+			if !ok {
+				return
+			}
+			if _, f, _, ok := FieldOf(mu.Map); !ok || f != "mappings" {
+				return
+			}
+			nUp++
+			okFresh := false
+			for _, st := range fresh {
+				if st.Block() != mu.Block() && st.Block().Dominates(mu.Block()) && !CanReach(mu.Block(), st.Block()) {
+					okFresh = true
+				}
+			}
+			r.Ob("R-C19-5", mu.Pos(), okFresh, "Rebuild inserts into a map it re-created first (entries of deleted mappings do not survive a rebuild: the name stops routing and is claimable again)", "DomainRegistry.Rebuild", "rebuild-starts-empty")
+		})
+		if nUp == 0 {
+			r.Fail("R-C19-5", rb.Pos(), "no insert into mappings found in Rebuild", "DomainRegistry.Rebuild", "rebuild-starts-empty:anchor")
+		}
+	}
 	if rg := r.need("R-C19-5", "internal/httpservice", "DomainRegistry.Register"); rg != nil {
 		ls := ComputeLockSets(rg, nil)
 		Instrs(rg, func(in ssa.Instruction) {
